@@ -463,6 +463,7 @@ func runC16(c *Ctx) {
 	checkFilterFetchFailureIsAnError(c, "C16-R2")
 	checkUnsignedSubtractionsAreGuarded(c, "C16-R1")
 	checkBirthdaySearchGivesUpOnlyAtABound(c, "C16-R6")
+	checkBlockBatchOnlyGrowsInAdd(c, "C16-R5")
 	checkFirstSyncRetryConsultsPersistedBirthdayBlock(c, "C16-R6")
 	checkNextIndexGuardsStayOnTheirBranch(c, "C16-R4")
 	if sb := c.P.Func("wallet", "walletBirthdayStore", "SetBirthdayBlock"); sb != nil {
